@@ -352,4 +352,212 @@ theorem scan_number_stop (doC : Bool) (d : Nat) (ds stop : Cps) (hd : ∀ c ∈ 
   · rw [reNUMBER_eq]; exact numRe_first d ds stop hd hns
   · simp [identContinue]
 
+/-! ## signed integers: `+1`, `-1` -/
+
+theorem signOpt_ms_sign (sg : Nat) (hsg : sg = 43 ∨ sg = 45) (t : Cps) : signOpt.ms (sg :: t) = [1, 0] := by
+  rcases hsg with rfl | rfl <;> simp [signOpt, Re.ms, Re.repMs, Re.inCls]
+
+theorem numTailA_digits_nil {cs : List (Nat × Nat)} (d : Nat) (ds stop : Cps) (hd : ∀ c ∈ d :: ds, isDigit c = true)
+    (hs : NumStop cs stop) :
+    (Re.seq (Re.star digitRe true) (Re.seq (Re.cls false [(46, 46)]) (Re.seq digitRe (Re.star digitRe true)))).ms
+      (d :: ds ++ stop) = [] := by
+  have hd0 : isDigit d = true := hd d (by simp)
+  have hsign : signOpt.ms (d :: ds ++ stop) = [0] := by
+    apply signOpt_ms
+    intro c t h
+    simp only [List.cons_append, List.cons.injEq] at h
+    obtain ⟨rfl, _⟩ := h
+    simp only [isDigit, Bool.and_eq_true, decide_eq_true_eq] at hd0
+    omega
+  have := numA_ms d ds stop hd hs
+  unfold numA at this
+  rw [seq_ms_left_zero hsign] at this
+  exact this
+
+theorem numTailB_digits {cs : List (Nat × Nat)} (d : Nat) (ds stop : Cps) (hd : ∀ c ∈ d :: ds, isDigit c = true)
+    (hs : NumStop cs stop) :
+    (Re.seq digitRe (Re.star digitRe true)).ms (d :: ds ++ stop) = (countdown ds.length).map (1 + ·) := by
+  have hd0 : isDigit d = true := hd d (by simp)
+  have hsign : signOpt.ms (d :: ds ++ stop) = [0] := by
+    apply signOpt_ms
+    intro c t h
+    simp only [List.cons_append, List.cons.injEq] at h
+    obtain ⟨rfl, _⟩ := h
+    simp only [isDigit, Bool.and_eq_true, decide_eq_true_eq] at hd0
+    omega
+  have := numB_ms d ds stop hd hs
+  unfold numB at this
+  rw [seq_ms_left_zero hsign] at this
+  exact this
+
+theorem flatMap_two {β : Type} (f : Nat → List β) (a b : Nat) : [a, b].flatMap f = f a ++ f b := by simp
+
+/-- successes of the number pattern on sign, digits, stop -/
+theorem numRe_ms_signed {cs : List (Nat × Nat)} (sg : Nat) (hsg : sg = 43 ∨ sg = 45) (d : Nat) (ds stop : Cps)
+    (hd : ∀ c ∈ d :: ds, isDigit c = true) (hs : NumStop cs stop) :
+    numRe.ms (sg :: (d :: ds ++ stop)) = (countdown ds.length).map (fun k => 1 + (1 + k)) := by
+  have hsgn : isDigit sg = false ∧ sg ≠ 46 := by rcases hsg with rfl | rfl <;> decide
+  have hsh : HeadIn (fun c => isDigit c = false ∧ c ≠ 46) (sg :: (d :: ds ++ stop)) := Or.inr ⟨sg, _, rfl, hsgn⟩
+  have hA : numA.ms (sg :: (d :: ds ++ stop)) = [] := by
+    show (Re.seq signOpt _).ms _ = []
+    apply seq_ms_nil
+    intro l hl
+    rw [signOpt_ms_sign sg hsg] at hl
+    simp only [List.mem_cons, List.mem_nil_iff, or_false] at hl
+    rcases hl with rfl | rfl
+    · rw [List.drop_one, List.tail_cons]; exact numTailA_digits_nil d ds stop hd hs
+    · exact numTailA_nil _ hsh
+  have hB : numB.ms (sg :: (d :: ds ++ stop)) = (countdown ds.length).map (fun k => 1 + (1 + k)) := by
+    show List.flatMap (fun l1 => ((Re.seq digitRe (Re.star digitRe true)).ms
+      ((sg :: (d :: ds ++ stop)).drop l1)).map (l1 + ·)) (signOpt.ms (sg :: (d :: ds ++ stop))) = _
+    rw [signOpt_ms_sign sg hsg, flatMap_two]
+    simp only [List.drop_one, List.tail_cons, List.drop_zero]
+    rw [show (Re.seq digitRe (Re.star digitRe true)).ms (d :: ds ++ stop) = _ from numTailB_digits d ds stop hd hs,
+      show (Re.seq digitRe (Re.star digitRe true)).ms (sg :: (d :: ds ++ stop)) = [] from
+        numTailB_nil _ (headIn_mono hsh (fun c hc => hc.1))]
+    simp [List.map_map, Function.comp_def]
+  show numA.ms _ ++ numB.ms _ = _
+  rw [hA, hB]; rfl
+
+theorem signed_then_nil {cs : List (Nat × Nat)} (X : Re) (hns : noStart ((48, 57) :: cs) X = true)
+    (hnn : X.nonNullable = true) (sg : Nat) (hsg : sg = 43 ∨ sg = 45) (d : Nat) (ds stop : Cps)
+    (hd : ∀ c ∈ d :: ds, isDigit c = true) (hs : NumStop cs stop) :
+    (Re.seq numRe X).ms (sg :: (d :: ds ++ stop)) = [] := by
+  apply seq_ms_nil
+  intro l hl
+  rw [numRe_ms_signed sg hsg d ds stop hd hs] at hl
+  simp only [List.mem_map] at hl
+  obtain ⟨k, hk, rfl⟩ := hl
+  have hle : 1 + k ≤ (d :: ds).length := by have := mem_countdown hk; simp; omega
+  have : (sg :: (d :: ds ++ stop)).drop (1 + (1 + k)) = (d :: ds ++ stop).drop (1 + k) := by
+    rw [Nat.add_comm 1 (1 + k), List.drop_succ_cons]
+  rw [this]
+  exact ms_nil_of_headIn hns hnn (num_heads (d :: ds) stop hd hs (1 + k) hle)
+
+/-- **signed NUMBER** `+1` / `-1`: a sign, ASCII digits, then the end of the text or a `numStops` code point -/
+theorem scan_signed_number (doC : Bool) (sg : Nat) (hsg : sg = 43 ∨ sg = 45) (d : Nat) (ds stop : Cps)
+    (hd : ∀ c ∈ d :: ds, isDigit c = true) (hs : HeadIn (fun c => inR numStops c = true) stop) :
+    scan false doC (sg :: (d :: ds ++ stop)) productions = .hit "NUMBER" ((d :: ds).length + 1) := by
+  have hns : NumStop numStops stop := ⟨hs, by decide, by decide⟩
+  have hcc : inR [(43, 43), (45, 45)] sg = true := by rcases hsg with rfl | rfl <;> decide
+  have hsplit : productions = productions.take 3 ++ (("IDENT", reIDENT) :: ("FUNCTION", reFUNCTION) ::
+      ("DIMENSION", reDIMENSION) :: ("PERCENTAGE", rePERCENTAGE) :: ("NUMBER", reNUMBER) :: productions.drop 8) := by
+    decide
+  rw [hsplit, scan_false_reject hcc _ _ _ (by decide)]
+  -- IDENT / FUNCTION: after the optional dashes a name start is required, but a digit (or the sign) stands there
+  have hnoname : ∀ (Y : Re), (Re.seq dashOpt (Re.seq nmstartRe Y)).ms (sg :: (d :: ds ++ stop)) = [] := by
+    intro Y
+    have hd0 : isDigit d = true := hd d (by simp)
+    have hdd : inR [(48, 57)] d = true := by simpa [inR, isDigit] using hd0
+    apply seq_ms_nil
+    intro l hl
+    have hl' : l = 0 ∨ l = 1 := by
+      rcases hsg with rfl | rfl
+      · have : dashOpt.ms (43 :: (d :: ds ++ stop)) = [0] := dashOpt_ms 43 _ (by decide)
+        rw [this] at hl; simp at hl; exact Or.inl hl
+      · have hd45 : d ≠ 45 := by
+          intro e; rw [e] at hd0; revert hd0; decide
+        have h1 : Re.inCls false [(45, 45)] d = false := by simp [inCls_single, hd45]
+        have h2 : Re.inCls false [(45, 45)] 45 = true := by decide
+        have : dashOpt.ms (45 :: (d :: ds ++ stop)) = [1, 0] := by
+          simp [dashOpt, Re.ms, Re.repMs, h1, h2]
+        rw [this] at hl; simp at hl; omega
+    rcases hl' with rfl | rfl
+    · rw [List.drop_zero]
+      exact seq_ms_nil_left (noStart_sound (cs := [(43, 43), (45, 45)]) (by decide) hcc _)
+    · rw [List.drop_one, List.tail_cons, List.cons_append]
+      exact seq_ms_nil_left (noStart_sound (cs := [(48, 57)]) (by decide) hdd _)
+  rw [scan_false_none (first_none_of_ms_nil (by rw [reIDENT_eq]; exact hnoname _))]
+  rw [scan_false_none (first_none_of_ms_nil (by rw [reFUNCTION_eq]; exact hnoname _))]
+  rw [scan_false_none (first_none_of_ms_nil (by
+    rw [reDIMENSION_eq]; exact signed_then_nil reIDENT (by decide) (by decide) sg hsg d ds stop hd hns))]
+  rw [scan_false_none (first_none_of_ms_nil (by
+    rw [rePERCENTAGE_eq]; exact signed_then_nil _ (by decide) (by decide) sg hsg d ds stop hd hns))]
+  apply scan_false_hit
+  · rw [reNUMBER_eq]
+    simp only [Re.first, numRe_ms_signed sg hsg d ds stop hd hns, List.head?_map, head_countdown, Option.map_some,
+      List.length_cons]
+    congr 1; omega
+  · simp [identContinue]
+
+/-! ## `-` alone -/
+
+theorem dashOpt_ms_dash' (c : Nat) (t : Cps) (h : c ≠ 45) : dashOpt.ms (45 :: c :: t) = [1, 0] := by
+  have h1 : Re.inCls false [(45, 45)] c = false := by simp [inCls_single, h]
+  have h2 : Re.inCls false [(45, 45)] 45 = true := by decide
+  simp [dashOpt, Re.ms, Re.repMs, h1, h2]
+
+/-- what may follow a lone `-`: no `-`, `.`, digit, letter, `_`, backslash, non-ASCII -/
+def minusStops : List (Nat × Nat) := [(0, 44), (47, 47), (58, 64), (91, 91), (93, 94), (96, 96), (123, 127)]
+
+theorem numRe_ms_minus (stop : Cps) (hs : HeadIn (fun c => isDigit c = false ∧ c ≠ 46) stop) :
+    numRe.ms (45 :: stop) = [] := by
+  have hsign : signOpt.ms (45 :: stop) = [1, 0] := signOpt_ms_sign 45 (Or.inr rfl) stop
+  have h45 : HeadIn (fun c => isDigit c = false ∧ c ≠ 46) (45 :: stop) := Or.inr ⟨45, stop, rfl, by decide⟩
+  have hA : numA.ms (45 :: stop) = [] := by
+    apply seq_ms_nil
+    intro l hl
+    rw [hsign] at hl
+    simp only [List.mem_cons, List.mem_nil_iff, or_false] at hl
+    rcases hl with rfl | rfl
+    · exact numTailA_nil _ hs
+    · exact numTailA_nil _ h45
+  have hB : numB.ms (45 :: stop) = [] := by
+    apply seq_ms_nil
+    intro l hl
+    rw [hsign] at hl
+    simp only [List.mem_cons, List.mem_nil_iff, or_false] at hl
+    rcases hl with rfl | rfl
+    · exact numTailB_nil _ (headIn_mono hs (fun c hc => hc.1))
+    · exact numTailB_nil _ (headIn_mono h45 (fun c hc => hc.1))
+  show numA.ms _ ++ numB.ms _ = []
+  rw [hA, hB]; rfl
+
+/-- **`-`** followed by the end of the text or a `minusStops` code point is a CHAR token -/
+theorem scan_minus (doC : Bool) (stop : Cps) (hs : HeadIn (fun c => inR minusStops c = true) stop) :
+    scan false doC (45 :: stop) productions = .hit "CHAR" 1 := by
+  have hcc : inR [(45, 45)] 45 = true := by decide
+  have hnum : HeadIn (fun c => isDigit c = false ∧ c ≠ 46) stop :=
+    headIn_mono hs (fun c hc => by
+      simp only [inR, minusStops, List.any_cons, List.any_nil, Bool.or_false, Bool.or_eq_true, Bool.and_eq_true,
+        decide_eq_true_eq] at hc
+      simp only [isDigit, Bool.and_eq_false_iff, decide_eq_false_iff_not]
+      omega)
+  have hdash : dashOpt.ms (45 :: stop) = [1, 0] := by
+    rcases hs with rfl | ⟨x, t, rfl, hx⟩
+    · decide
+    · have hx45 : x ≠ 45 := by intro e; rw [e] at hx; revert hx; decide
+      exact dashOpt_ms_dash' x t hx45
+  have hnoname : ∀ (Y : Re), (Re.seq dashOpt (Re.seq nmstartRe Y)).ms (45 :: stop) = [] := by
+    intro Y
+    apply seq_ms_nil
+    intro l hl
+    rw [hdash] at hl
+    simp only [List.mem_cons, List.mem_nil_iff, or_false] at hl
+    rcases hl with rfl | rfl
+    · rw [List.drop_one, List.tail_cons]
+      exact seq_ms_nil_left (ms_nil_of_headIn (cs := minusStops) (by decide) (by decide) hs)
+    · rw [List.drop_zero]
+      exact seq_ms_nil_left (noStart_sound (cs := [(45, 45)]) (by decide) hcc _)
+  have hsplit : productions = productions.take 3 ++ (("IDENT", reIDENT) :: ("FUNCTION", reFUNCTION) ::
+      ("DIMENSION", reDIMENSION) :: ("PERCENTAGE", rePERCENTAGE) :: ("NUMBER", reNUMBER) ::
+        ((productions.drop 8).take 11 ++ (("CDC", reCDC) :: [("CHAR", reCHAR)]))) := by decide
+  rw [hsplit, scan_false_reject hcc _ _ _ (by decide)]
+  rw [scan_false_none (first_none_of_ms_nil (by rw [reIDENT_eq]; exact hnoname _))]
+  rw [scan_false_none (first_none_of_ms_nil (by rw [reFUNCTION_eq]; exact hnoname _))]
+  rw [scan_false_none (first_none_of_ms_nil (by rw [reDIMENSION_eq]; exact seq_ms_nil_left (numRe_ms_minus stop hnum)))]
+  rw [scan_false_none (first_none_of_ms_nil (by rw [rePERCENTAGE_eq]; exact seq_ms_nil_left (numRe_ms_minus stop hnum)))]
+  rw [scan_false_none (first_none_of_ms_nil (by rw [reNUMBER_eq]; exact numRe_ms_minus stop hnum))]
+  rw [scan_false_reject hcc _ _ _ (by decide)]
+  rw [scan_false_none (by
+    show (Re.seq (Re.cls false [(45, 45)]) (Re.seq (Re.cls false [(45, 45)]) (Re.cls false [(62, 62)]))).first _ = none
+    rw [first_seq_cls_cons]
+    have h45 : Re.inCls false [(45, 45)] 45 = true := by decide
+    simp only [h45, if_true]
+    rcases hs with rfl | ⟨x, t, rfl, hx⟩
+    · simp [first_seq_cls_nil]
+    · have hx45 : x ≠ 45 := by intro e; rw [e] at hx; revert hx; decide
+      simp [first_seq_cls_cons, inCls_single, hx45])]
+  exact scan_false_hit (reCHAR_first 45 stop (by decide) (by decide)) (by simp [identContinue])
+
 end CssVerif.Tok
